@@ -176,7 +176,7 @@ def run(ctx):
     rp.close()
     ctx.validated = rp.count
     # header on the compiled code
-    res = kani.run_many(["k_parse_header"], cap_s=420)
+    res = kani.run_many(["k_parse_header"], cap_s=1500)
     kani.settle(ctx, res, lambda h: h[2:])
     ctx.extra["states"] = len(chosen)
     ctx.extra["transitions"] = npaths
